@@ -1,6 +1,8 @@
 import Sio.Props.C20
 #print axioms Sio.C20.serial_inv
 #print axioms Sio.C20.gate_serial_partial
+#print axioms Sio.C20.gate_serial_causes_only
+#print axioms Sio.C20.serial_refused_never_notified_after
 #print axioms Sio.C20.race_double_call
 #print axioms Sio.C20.race_double_call_silent
 #print axioms Sio.C20.race_raise_residue
